@@ -24,7 +24,7 @@ type ForcedCase struct {
 	Version   string `json:"version"`
 	TimeoutMS int    `json:"timeout_ms"`
 	PerOp     bool   `json:"per_op"`
-	Op        string `json:"op"` // get, lock, rpc
+	Op        string `json:"op"` // get, lock, rpc, open
 }
 
 func genForced(t *rapid.T) ForcedCase {
@@ -32,7 +32,7 @@ func genForced(t *rapid.T) ForcedCase {
 		Version:   rapid.SampledFrom([]string{"1.0", "1.1"}).Draw(t, "version"),
 		TimeoutMS: rapid.SampledFrom([]int{5, 20, 60}).Draw(t, "timeoutMS"),
 		PerOp:     rapid.Bool().Draw(t, "perOp"),
-		Op:        rapid.SampledFrom([]string{"get", "lock", "rpc"}).Draw(t, "op"),
+		Op:        rapid.SampledFrom([]string{"get", "lock", "rpc", "open"}).Draw(t, "op"),
 	}
 }
 
@@ -65,6 +65,60 @@ func runForced(c ForcedCase) ev.Verdict {
 		d, err := netconf.NewDriver("sim", options.WithCustomTransport(pipe), options.WithReadDelay(500*time.Microsecond), options.WithTimeoutOps(conn))
 		if err != nil {
 			return ev.Fail("NewDriver: %v", err)
+		}
+
+		if c.Op == "open" {
+			// the server hello has been read in full, but the goroutine that read it only gets on
+			// after the deadline (hook nopen.post_read): Open must report a timeout (or succeed),
+			// whatever it does it must not panic or hang
+			setNetconfHook(func(p string) {
+				if p == "nopen.post_read" {
+					time.Sleep(conn + 3*time.Millisecond)
+				}
+			})
+
+			var (
+				openErr error
+				pv      any
+			)
+
+			done := make(chan struct{})
+
+			go func() {
+				defer close(done)
+				defer func() { pv = recover() }()
+
+				openErr = d.Open()
+			}()
+
+			select {
+			case <-done:
+			case <-time.After(time.Minute):
+				setNetconfHook(nil)
+				pipe.Release()
+
+				return ev.Fail("netconf Open did not return within a minute (virtual) when the hello was read at the deadline")
+			}
+
+			setNetconfHook(nil)
+
+			if pv != nil {
+				pipe.Release()
+
+				return ev.Fail("netconf Open panicked when the hello reader finished at the deadline: %v", pv)
+			}
+
+			if openErr == nil {
+				_ = d.Close()
+			} else if !errors.Is(openErr, util.ErrTimeoutError) {
+				pipe.Release()
+
+				return ev.Fail("netconf Open with the hello read at the deadline: error %v, want a timeout error (or success)", openErr)
+			}
+
+			pipe.Release()
+
+			continue
 		}
 
 		if err = d.Open(); err != nil {
